@@ -247,9 +247,10 @@ def exportStringOmit (v : BMNumber) : Option (List Nat) := (exportString v).map 
 /-! ### the other import entry points and `ExportUint64` -/
 
 /-- `ImportUint(input, optionalBits)`: `w` ∈ {8,16,32,64} is the Go width of `input`; the value is
-    laid out little endian in `w/8` bytes; a positive `optionalBits` overrides the width field only -/
-def importUint (w v optBits : Nat) : BMNumber :=
-  ⟨toBytesLE (w / 8) v, if 0 < optBits then optBits else w, .unsigned⟩
+    laid out little endian in `w/8` bytes; a positive `optionalBits` overrides the width field only; zero and the
+    negative 'any size' sentinel (`GetSize() = -1` of unsigned/signed/hex/bin) keep the native width -/
+def importUint (w v : Nat) (optBits : Int) : BMNumber :=
+  ⟨toBytesLE (w / 8) v, if 0 < optBits then optBits.toNat else w, .unsigned⟩
 
 /-- `ImportBytes(input, bits)`: `input` is big endian; the result is unsigned -/
 def importBytes (be : List Nat) (bits : Nat) : BMNumber := ⟨be.reverse, bits, .unsigned⟩
